@@ -106,7 +106,7 @@ class MermaidGantt:
 
         return Template(template).substitute(
             styles=self.__styles(),
-            src=self.__src()
+            src=escape(self.__src(), quote=False)
         )
 
     def _repr_html_(self):
